@@ -188,6 +188,12 @@ def run_ctx(ctx):
     fa, fb_, fc = None, None, None
     fresh = {}     # name -> observations of a freshly initialised library with that selection
 
+    def select(name, pid):
+        if name in R.TWIST_TYPE:
+            R.pairing_set(name)
+        else:
+            R.call("ep_param_set", pid)
+
     def observe(name):
         """a small battery of computations whose result depends on the derived state of the selection"""
         P = R.ep_params()
@@ -241,7 +247,7 @@ def run_ctx(ctx):
         R.ctx = R.S.vf_core_get()
         if not ctx.begin("fresh|%s" % name, name, budget=300):
             continue
-        R.call("ep_param_set", pid)
+        select(name, pid)
         fresh[name] = observe(name)
         ctx.end()
         R.L.core_clean()
@@ -267,7 +273,7 @@ def run_ctx(ctx):
             if not ctx.begin("switch|%s" % name, hist[-4:], budget=300):
                 continue
             try:
-                R.call("ep_param_set", pid)
+                select(name, pid)
                 if rng.random() < 0.5:
                     # heavy use in between: fill precomputation tables / pairing state
                     R.call("ep_curve_get_gen", g)
@@ -292,7 +298,7 @@ def run_ctx(ctx):
         R.L.core_init()
         name, pid = ids[(ctx.shard + 2 * t) % len(ids)]
         R.ctx = R.S.vf_core_get()
-        R.call("ep_param_set", pid)
+        select(name, pid)
         blks.append(blk)
         names.append(name)
     for step in range(ctx.n(12, 200)):
